@@ -116,6 +116,7 @@ Definition x_vop3_common (op : Z) : option vdesc :=
   match op with
   | 256 => Some (mkV 3 0 0 2 0 CSrc2 MNone (fun a b _ c => val (if c then b else a)))
   | 450 => Some (d3 (fun a b c => val (s32 (s24 a * s24 b + s32 c))))
+  | 462 => Some (d3 (fun a b c => val (u32 (Z.shiftr (Z.lor (Z.shiftl (u32 a) 32) (u32 b)) (Z.land c 31)))))
   | 465 => Some (d3 (fun a b c => val (min3 Z.ltb (s32 a) (s32 b) (s32 c))))
   | 466 => Some (d3 (fun a b c => val (min3 Z.ltb (u32 a) (u32 b) (u32 c))))
   | 468 => Some (d3 (fun a b c => val (min3 Z.gtb (s32 a) (s32 b) (s32 c))))
@@ -160,11 +161,15 @@ Definition g_vop2 (op : Z) : option vdesc :=
 
 Definition x_not (a : Z) : Z := not32 (u32 a).
 
+Definition ffbh (x : Z) : Z :=   (* position of the first 1 bit from the MSB, -1 if none *)
+  if x =? 0 then 4294967295 else 31 - Z.log2 x.
+
 Definition g_vop1 (op : Z) : option vdesc :=
   match op with
   | 1 => Some (mkV 1 0 0 0 0 CNone MNone (fun a _ _ _ => val a))
   | 43 => Some (mkV 1 0 0 0 0 CNone MNone (fun a _ _ _ => val (x_not a)))
   | 44 => Some (mkV 1 0 0 0 0 CNone MNone (fun a _ _ _ => val (brev_impl (u32 a))))
+  | 45 => Some (mkV 1 0 0 0 0 CNone MNone (fun a _ _ _ => val (ffbh (u32 a))))
   | _ => None
   end.
 
@@ -208,6 +213,8 @@ Definition c_vop2 (op : Z) : option vdesc :=
   | 28 => Some (d2cc MVcc (fun a b c => valf (u32 (u32 a + u32 b + cz c)) (u32 a + u32 b + cz c >? 4294967295)))
   | 29 => Some (d2cc MVcc (fun a b c => valf (u32 (u64 (u32 a - u32 b - cz c))) (u32 b + cz c >? u32 a)))
   | 30 => Some (d2cc MVcc (fun a b c => valf (u32 (u64 (u32 b - u32 a - cz c))) (u32 a + cz c >? u32 b)))
+  | 38 => Some (d2 (fun a b => val (u16 (u16 a + u16 b))))
+  | 42 => Some (d2 (fun a b => val (u16 (Z.shiftl (u16 b) (Z.land (u16 a) 15)))))
   | 52 => Some (d2 (fun a b => val (u32 (u32 a + u32 b))))
   | 53 => Some (d2 (fun a b => val (u32 (u32 a - u32 b))))
   | 54 => Some (d2 (fun a b => val (u32 (u32 b - u32 a))))
@@ -215,13 +222,9 @@ Definition c_vop2 (op : Z) : option vdesc :=
   | _ => None
   end.
 
-Definition ffbh (x : Z) : Z :=   (* position of the first 1 bit from the MSB, -1 if none *)
-  if x =? 0 then 4294967295 else 31 - Z.log2 x.
-
 Definition c_vop1 (op : Z) : option vdesc :=
   match op with
   | 43 => Some (mkV 1 0 0 0 0 CNone MNone (fun a _ _ _ => val (not64 a)))
-  | 45 => Some (mkV 1 0 0 0 0 CNone MNone (fun a _ _ _ => val (ffbh (u32 a))))
   | _ => g_vop1 op
   end.
 
@@ -230,6 +233,7 @@ Definition c_bfe_u (a b c : Z) : Z :=
   if w =? 0 then 0 else Z.land (Z.shiftr s0 off) (Z.shiftl 1 w - 1).
 Definition c_vop3a (op : Z) : option vdesc :=
   match op with
+  | 276 => Some (d2 (fun a b => val (Z.lor (u32 a) (u32 b))))
   | 456 => Some (d3 (fun a b c => val (c_bfe_u a b c)))
   | 509 => Some (d3 (fun a b c => val (u32 (u32 (Z.shiftl (u32 a) (Z.land (u32 b) 31)) + u32 c))))
   | 510 => Some (d3 (fun a b c => val (u32 (Z.shiftl (u32 (u32 a + u32 b)) (Z.land (u32 c) 31)))))
@@ -255,7 +259,9 @@ Definition vdesc_of (a : arch) (f : format) (op : Z) : option vdesc :=
   match a, f with
   | GCN3, F_VOP2 => g_vop2 op | CDNA3, F_VOP2 => c_vop2 op
   | GCN3, F_VOP1 => g_vop1 op | CDNA3, F_VOP1 => c_vop1 op
-  | _, F_VOPC => if (232 <=? op) && (op <=? 239) then x_cmp64 MVcc op else x_cmp_u MVcc op
+  | CDNA3, F_VOPC => if op =? 164 then Some (dcmp MVcc 0 (fun a b => s16 a >? s16 b))
+                     else if (232 <=? op) && (op <=? 239) then x_cmp64 MVcc op else x_cmp_u MVcc op
+  | GCN3, F_VOPC => if (232 <=? op) && (op <=? 239) then x_cmp64 MVcc op else x_cmp_u MVcc op
   | GCN3, F_VOP3A => g_vop3a op | CDNA3, F_VOP3A => c_vop3a op
   | GCN3, F_VOP3B => g_vop3b op | CDNA3, F_VOP3B => c_vop3b op
   | _, _ => None
@@ -274,20 +280,23 @@ Definition lane_of (d : vdesc) (st0 : state) (i : inst) : lane_fn := fun l s =>
 Definition first_lane (e : Z) : Z :=
   match find (fun l => bit e l) lanes with Some l => l | None => 0 end.
 
+(** run one descriptor: the lane loop, then the mask store *)
+Definition run_d (d : vdesc) (st : state) (i : inst) : option state :=
+  match vloop (exec st) (i_dst i) (vd_dc d) (lane_of d st i) st with
+  | None => None
+  | Some (s, m) =>
+      match vd_mask d with
+      | MNone => Some s
+      | MVcc => Some (s <| vcc := m |>)
+      | MDst => wr s (i_dst i) 2 m
+      | MSdst => wr s (i_simm i) 2 m
+      end
+  end.
+
 Definition exec_vector_gen (a : arch) (st : state) (i : inst) : option state :=
   match vdesc_of a (i_fmt i) (i_op i) with
   | None => None
-  | Some d =>
-      match vloop (exec st) (i_dst i) (vd_dc d) (lane_of d st i) st with
-      | None => None
-      | Some (s, m) =>
-          match vd_mask d with
-          | MNone => Some s
-          | MVcc => Some (s <| vcc := m |>)
-          | MDst => wr s (i_dst i) 2 m
-          | MSdst => wr s (i_simm i) 2 m
-          end
-      end
+  | Some d => run_d d st i
   end.
 
 Definition exec_vector (a : arch) (st : state) (i : inst) : option state :=
